@@ -410,6 +410,36 @@ func runC17(c *Ctx) {
 	// every record that passes the length tests reaches the dispatch on its type: no path from the record-length test to
 	// the next iteration avoids the comparisons of the type field (a filter on class, TTL or anything else in between drops
 	// well-formed records - mDNS sets the top bit of the class on the records a responder owns)
+	// ProcessNBNS goes through all the answer records: inside the loop it returns without an error only with a name in
+	// hand (a return after the first node status record, name or not, misses the unique name carried by a later record)
+	r.Rule("nbns-all-records", "ProcessNBNS stops at an answer record only when it found a name", 1)
+	if fn := c.P.Method("handlers/dns_naming", "DNSHandler", "ProcessNBNS"); fn != nil {
+		n := 0
+		core.EachInstr(fn, func(i ssa.Instruction) {
+			ret, ok := i.(*ssa.Return)
+			if !ok || len(ret.Results) != 2 {
+				return
+			}
+			if cst, isC := ret.Results[1].(*ssa.Const); !isC || !cst.IsNil() {
+				return
+			}
+			gs := guardsOf(i)
+			if !hasGuard(gs, `AnswerHeader\(local\(p\)\)#1==nil\)$`) {
+				return // not inside the answer loop
+			}
+			n++
+			st, det := core.Proved, ""
+			if !hasGuard(gs, `^\(len\(.*\)>0\)$`) {
+				st = core.Violated
+				det = "ProcessNBNS returns without an error from inside the answer loop although no name was found (conditions: no len(table) > 0): the records that follow, one of which may carry the unique name, are not read"
+			}
+			r.Add(core.Obligation{Rule: "nbns-all-records", Key: fmt.Sprintf("nbns-all-records ProcessNBNS return %d", n), Func: core.FuncName(fn), Pos: c.P.Pos(core.PosOf(i)), Status: st,
+				Basis: "a nil-error return inside the answer loop is under len(table) > 0", Detail: det})
+		})
+		if n == 0 {
+			r.Add(core.Obligation{Rule: "nbns-all-records", Key: "nbns-all-records ProcessNBNS", Func: core.FuncName(fn), Status: core.Undecided, Detail: "no nil-error return inside the answer loop found"})
+		}
+	}
 	// the group bit of an NBNS name entry is the top bit of the first flags octet (RFC 1002 4.2.18: NAME_FLAGS is a 16-bit
 	// field in network order): the value tested with 0x8000 in parseNodeNameArray is binary.BigEndian.Uint16 of the two
 	// octets behind the name, or is assembled with the first of them shifted left by eight
